@@ -67,13 +67,24 @@ func (sr *sessRun) script(toks []string) {
 		if idx+1 < len(toks) {
 			next = toks[idx+1]
 		}
-		num := func() int { n, _ := strconv.Atoi(strings.TrimRight(t[1:], "rengtSc")); return n }
+		num := func() int { n, _ := strconv.Atoi(strings.TrimRight(t[1:], "rengtScXT")); return n }
 		switch t[0] {
 		case 'c':
 			sr.trace = append(sr.trace, t)
-			sr.start(num())
+			i := num()
+			sr.start(i)
+			if sr.rstate[i] == "ret" && strings.HasPrefix(next, "f") {
+				idx++ // the model's f<i>: the call failed at once (start recorded it)
+			}
+		case 'C':
+			sr.trace = append(sr.trace, t)
+			sr.outClosed = true
+			common.WithTimeout(watchdog, func() { sr.rs.S.Close() })
 		case 'o', 'f':
 			i := num()
+			if t[0] == 'f' {
+				sr.broken = true
+			}
 			sr.trace = append(sr.trace, t)
 			label := "r" + strconv.Itoa(i)
 			sr.gates[i].fail <- t[0] == 'f'
@@ -117,9 +128,13 @@ func (sr *sessRun) script(toks []string) {
 			}
 			if sr.serve == "waitclose" {
 				sr.serve = "idle"
+				sr.afterBadClose(i)
 			} else if sr.serve == "handedpark" {
 				sr.serve = "handedpark-closed"
 			}
+		case 'd':
+			sr.trace = append(sr.trace, t)
+			sr.drain(num())
 		case 'R':
 			// the model says requester i returns now, with this outcome
 			body := t[1:]
@@ -148,10 +163,11 @@ func (sr *sessRun) script(toks []string) {
 func (sr *sessRun) feedScript(p peerStanza, expectHandler bool) {
 	k := sr.nread
 	sr.nread++
+	sr.badK[k] = p.bad
 	outBefore := sr.rs.Out.Len()
 	autoReply := p.kind == 'i' && p.typ != 'r' && p.typ != 'e'
 	want := sr.lookupShadow(p)
-	go sr.rs.Feed([]byte(p.xml()))
+	go sr.feedRaw(p)
 	if p.typ == 'r' || p.typ == 'e' {
 		if _, ok := sr.wait(isEv("serve", "park:session.serve.lookup"), "serve loop after lookup"); !ok {
 			sr.serve = "stuck"
@@ -176,8 +192,14 @@ func (sr *sessRun) feedScript(p peerStanza, expectHandler bool) {
 	default:
 		sr.hlog = append(sr.hlog, k)
 		sr.trace = append(sr.trace, "H"+strconv.Itoa(k))
+		if p.bad {
+			sr.awaitServeEnd()
+			return
+		}
 	}
-	if autoReply {
+	if autoReply && (sr.broken || sr.outClosed) {
+		sr.awaitServeEnd()
+	} else if autoReply {
 		for dl := time.Now().Add(watchdog); sr.rs.Out.Len() == outBefore && time.Now().Before(dl); {
 			time.Sleep(20 * time.Microsecond)
 		}
